@@ -9,7 +9,7 @@ print(f"""You are helping to evaluate a verification effort for the Python libra
 Your private scratch checkout (a git worktree, compiled Cython kernels already copied in) is: {wt}
 Work ONLY inside that directory. Never edit or read anything under /repo or /verif (they are off limits), and do not create other worktrees. Use the interpreter /venv/bin/python. Because the working directory comes first on sys.path, running python from inside {wt} imports the numpoly of your checkout (verify once with: cd {wt} && /venv/bin/python -c "import numpoly; print(numpoly.__file__)"). There is no network and no Cython: edit only .py files (editing .pyx files has no effect).
 
-The existing test-suite: cd {wt} && /venv/bin/python -m pytest -q -p no:cacheprovider --timeout=900 -x -q test   (about 20 s). On the unchanged checkout exactly two tests fail (test_count_nonzero[numpoly] and test_count_nonzero[numpy], a pre-existing type assertion); every other test passes. With your change the outcome must be identical: the same two failures and nothing else.
+The existing test-suite: cd {wt} && /venv/bin/python -m pytest -q -p no:cacheprovider --timeout=900 -q test   (about 20 s). On the unchanged checkout exactly 12 tests fail (listed below); every other test passes. With your change the outcome must be identical: the same failures and nothing else.
 
 THE PROPERTY (id {pid}: {p['title']}):
 {p['statement']}
@@ -29,6 +29,8 @@ For each defect X in (A, B) write, inside {wt}/MUTANT/:
   - X.notes.md   : 5-10 lines: what was changed, which clause of the property it breaks, what exactly is needed for it to manifest, and the commands you ran (test-suite result with the patch, demo result with and without the patch).
 Procedure per defect: start from a clean checkout (`git -C {wt} checkout -- .`; the MUTANT directory is untracked and stays), make the change, run the test-suite, run the demo (must fail), save `git diff > MUTANT/X.patch.diff`, revert with `git checkout -- .`, run the demo again (must pass). Leave the checkout clean (reverted) at the end, with only the MUTANT/ directory added. Before finishing, double-check both patches apply cleanly with `git apply --check`.
 
-Some library behaviours are ALREADY broken on the unchanged checkout (do not build on these; your demo must pass on the unchanged checkout): multiplication/arithmetic between coefficient dtypes other than bool/uint32/int64/float64/complex128 is mishandled; multivariate polynomial division can loop forever (e.g. dividing by q0+q1) — only use univariate or monomial divisors if you touch division; evaluation `p(-1)` with negative Python ints overflows; `derivative` fails under retain_coefficients=True; products with exponents >= 69 raise UnicodeDecodeError; matmul with 1-d operands does not follow numpy; size-0 (empty) arrays lose their shape; amax/amin with axis are wrong; savetxt/loadtxt fail for 0-d, size-1 and single-term polynomials.
+Known limitations of the unchanged checkout (do not build on these; your demo must pass on the unchanged checkout): matmul with 1-d operands does not follow numpy; size-0 (empty) arrays lose their shape; repeat without an axis repeats along axis 0; power with non-integer exponents truncates them; a numpy scalar on the left of / % divmod dispatches to numeric division. On the unchanged checkout the test-suite fails exactly these 12 tests and no others: test_count_nonzero[numpoly|numpy], test_amax[numpoly|numpy], test_amin[numpoly|numpy], test_max[numpoly|numpy|method], test_min[numpoly|numpy|method] (their expectations are known to be wrong); with your change the outcome must be identical. Run the suite WITHOUT -x.
+
+This is a second round: the most obvious single-line slips at the central sites of this property have been tried already. Prefer defects that are subtler or sit in less obvious places: a second code path that is only taken for particular operand kinds, shapes, dtypes, option settings or name sets; state shared between two calls; a helper used by several functions; an interaction of two features; an order-of-operations change that only matters for particular inputs.
 
 Final answer: a short report listing, for A and B: the files changed, a one-sentence description, what is needed to trigger it, and confirmation of the test-suite and demo results.""")
